@@ -37,7 +37,7 @@ class Run:
         self.cov = {"states": 0, "transitions": 0, "traces_validated_against_impl": 0,
                     "events_validated": 0, "samples": [], "stages": []}
         self.assumptions = []
-        self.findings = load_known().get(prop, [])
+        self.findings = [f for f in load_known() if prop in f.get("properties", [f.get("property")])]
         self.bins = {}
 
     # ---------------------------------------------------------------- build
@@ -132,6 +132,10 @@ class Run:
             raise Broken("trace validation of %s did not complete (rc=%d):\n%s" % (trace, rc, tail(out, 40)))
         consumed, total = int(m.group(1)), int(m.group(2))
         rejected = [int(x) for x in re.findall(r"\d+", m.group(3))]
+        md = re.search(r'"DEVIATIONS",\s*\{(.*?)\}\s*>>', out, re.S)
+        devs = re.findall(r'<<\s*(\d+),\s*"(\w+)"\s*>>', md.group(1)) if md else []
+        for ln, name in devs:
+            self.deviation(trace, int(ln), name, label)
         if consumed != total:
             raise Broken("trace validation consumed %d of %d lines of %s:\n%s" % (consumed, total, trace, tail(out, 40)))
         states, gen = self.tlc_counts(out)
@@ -160,6 +164,19 @@ class Run:
             for e in sub:
                 fh.write(json.dumps(e) + "\n")
         self.violations.append(("%s state=%s: %s" % (stage, state, desc), path))
+
+    def deviation(self, trace, line, name, stage):
+        """A line only a named deviation of the specification explains: a known
+        finding if known_findings.json lists that deviation for this property,
+        a violation otherwise."""
+        for f in self.findings:
+            if f.get("status") != "fixed" and f.get("deviation") == name:
+                if f["id"] not in [k[0] for k in self.known]:
+                    self.known.append((f["id"], f["what"]))
+                self.cov.setdefault("deviation_lines", {}).setdefault(name, 0)
+                self.cov["deviation_lines"][name] += 1
+                return
+        self.reject(trace, line, what="unlisted deviation %s" % name, stage=stage)
 
     def violation(self, what, replay_obj, stage=""):
         """A violation found outside trace validation (crash, hang, oracle)."""
@@ -238,11 +255,8 @@ def tail(s, n):
 def load_known():
     p = os.path.join(VERIF, "known_findings.json")
     if not os.path.exists(p):
-        return {}
-    acc = {}
-    for f in json.load(open(p)).get("findings", []):
-        acc.setdefault(f["property"], []).append(f)
-    return acc
+        return []
+    return json.load(open(p)).get("findings", [])
 
 
 def trace_counts(path):
